@@ -8,6 +8,8 @@
 #include <string.h>
 #include <unistd.h>
 #include <fcntl.h>
+#include <locale.h>
+#include <ctype.h>
 #include <errno.h>
 #include "snoopy.h"
 #include "configuration.h"
@@ -20,6 +22,8 @@ int main(int argc, char **argv) {
     if (argc < 2) return 2;
     snprintf(verif_cfgpath, 4096, "%s/snoopy.ini", argv[1]);
     /* caller states: ambient errno at the moment of the call, descriptor 0 closed (the next open() returns 0) */
+    /* the caller has switched to a locale of its own (LOCPATH points at it) */
+    if (getenv("VERIF_CONF_LOCALE")) { if (!setlocale(LC_ALL, getenv("VERIF_CONF_LOCALE"))) { fprintf(stderr, "setlocale failed\n"); return 4; } if (toupper('i') == 'I') { fprintf(stderr, "locale has no Turkish case rules\n"); return 4; } }
     int amb = getenv("VERIF_CONF_ERRNO") ? atoi(getenv("VERIF_CONF_ERRNO")) : 0;
     FILE *in = stdin;
     if (getenv("VERIF_CONF_CLOSE0")) { in = fdopen(dup(0), "r"); close(0); }
